@@ -371,6 +371,11 @@ func (s *Seq) build(lid int, r *shapes.Rec, nan string) *shapes.Rec {
 	if u, ok := s.M.UUID[lid]; ok {
 		o.Initialize(u)
 	}
+	// strings that are not valid UTF-8 (carried as marker runes in the history)
+	o.S, o.Up, o.Lo, o.ES, o.In.S = shapes.RawBytes(o.S), shapes.RawBytes(o.Up), shapes.RawBytes(o.Lo), shapes.RawBytes(o.ES), shapes.RawBytes(o.In.S)
+	if o.P != nil {
+		o.P.S = shapes.RawBytes(o.P.S)
+	}
 	if m, ok := o.Any.(map[string]interface{}); ok && m["$box"] != nil {
 		b := shapes.AnyBox{Box: fmt.Sprint(m["$box"]), S: fmt.Sprint(m["S"])}
 		if n, ok := m["N"].(float64); ok {
